@@ -46,7 +46,7 @@ def setup() -> None:
 
 
 def budget(tier: str) -> int:
-    return 3000 if tier == "quick" else 40000
+    return 3000 if tier == "quick" else 150000
 
 
 DISPLAY_SIGNS = [("**", "*"), ("**", "*"), ("^", "*"), ("**", " * "), ("**", "·"), ("^", "·")]
